@@ -76,6 +76,22 @@ def odd_trip(n: fp.Real) -> fp.Real:
 
 
 @fp.fpy
+def nest_trip(n: fp.Real) -> fp.Real:
+    a = 35.0
+    for _i in range(3):
+        a = a + 36
+        for _j in range(4):
+            a = a * 37
+    for _k in range(2):
+        a = a - 38
+        for _l in range(3):
+            a = a + 39
+            for _m in range(4):
+                a = a - 40
+    return a + n
+
+
+@fp.fpy
 def calls_a(x: fp.Real, y: fp.Real) -> fp.Real:
     p = x + 41
     q = leaf(p) + 42
@@ -152,7 +168,7 @@ def mixed(xs: list[fp.Real], x: fp.Real) -> fp.Real:
     return o
 
 
-ROOTS = ['loops_a', 'loops_b', 'odd_trip', 'calls_a', 'calls_b', 'rounds_a', 'rounds_b', 'mixed']
+ROOTS = ['loops_a', 'loops_b', 'odd_trip', 'nest_trip', 'calls_a', 'calls_b', 'rounds_a', 'rounds_b', 'mixed']
 
 
 # ---------------------------------------------------------------------------
